@@ -88,6 +88,9 @@ XIncludeLocation::prependPath(const XMLCh *baseToAdd){
     XMLString::copyNString(relativeHref, baseToAdd, lastSlash + 1);
     relativeHref[lastSlash + 1] = chNull;
     XMLString::catString(relativeHref, hrefPath);
+    /* "dir/../x" must reach x also when dir does not exist, and the inclusion
+       history compares these strings: remove "seg/.." from the result */
+    XMLPlatformUtils::removeDotDotSlash(relativeHref);
 
     /* free the old reference */
     deallocate((void *)fHref);
